@@ -158,6 +158,7 @@ def procCase (inp impl : String) : CaseOut :=
         ("C05", lifecycleOK tr || (restartNumbers tr).isEmpty,
            "after a restart the fresh incarnation was not the one that received what followed (life-cycle shape violated across a restart)"),
         ("C13", allWrapped mw tr, "a delivery bypassed (part of) the middleware chain or ran it out of order"),
+        ("C13", chainTargetOK 0 tr, "the middleware chain ended at a receiver that is not the current incarnation (chain composed around an earlier receiver)"),
         ("C05", replayPrefixOK batches tr, s!"user deliveries {repr (userRecvs tr)} are not a prefix of the history (lost, duplicated, reordered or wrong sender)"),
         ("C05", replayCompleteOK batches tr alive, "actor alive at the end but not every message was delivered"),
         ("C05+C06", restartsOK max tr, "restart events not numbered 1..n (C05: each ActorRestartedEvent carries the incremented count) or more than MaxRestarts (C06)"),
